@@ -573,8 +573,10 @@ def rule_f(ck, u, ub, so, P, engf):
                 bad = bad or 'path without the transfer loop: %s' % p.describe(3)
                 continue
             lmap = p.loops[-1][1]
-            down = [(k, h) for k, (h, pre) in lmap.items() if pre == n_]
-            up = [(k, h) for k, (h, pre) in lmap.items() if pre == C(0) and not eng_is_bool(k)]
+            # the account is a variable the loop really carries (one shown to keep its pre-loop value - a result preset
+            # to n, a status preset to 0 - is none)
+            down = [(k, h) for k, (h, pre) in lmap.items() if pre is not None and strip_cast(pre) == n_ and h[0] == 'h']
+            up = [(k, h) for k, (h, pre) in lmap.items() if pre == C(0) and not eng_is_bool(k) and h[0] == 'h']
             if len(down) == 1:
                 ck_, h = down[0]
                 moved = lambda v: L(n_) - L(v)
